@@ -11,7 +11,8 @@ fn corpus() -> Vec<String> {
     let mut v: Vec<String> = shapes::family_samples(10).into_iter().step_by(5).map(|x| x.1).collect();
     for d in [
         "", " ", "\n", "a", "\"", "\"\"", "\"a", "{", "}", "{}", "{a", "# Legend:", "# Legend:\n", "# Legend:\na = {", "# Legend:\n= {}", "一", "\u{0}", "\u{301}", "\u{10FFFF}",
-        "+--+\n|{a}|\n+--+\n# Legend:\na = {fill:red}", "*-->o<--O", "\\|/\n-+-\n/|\\", "(_)", ".-.\n'-'", "()()\n()()",
+        "+--+\n|{a}|\n+--+\n# Legend:\na = {fill:red}", "*-->o<--O",
+        " .-.  text\n(   )\n `-'", "  .--.  +--+\n ( ab ) |  |\n  `--'  +--+", "   _\n .' '.   -->\n(     )\n `._.'", "\\|/\n-+-\n/|\\", "(_)", ".-.\n'-'", "()()\n()()",
     ] {
         v.push(d.to_string());
     }
